@@ -1,7 +1,7 @@
 //! Key-keeper rig checks: C09 (and later C10 C12 C16, the host-reply part of C13, own-call part of C04).
 
 use gpa_verif::keeper::KeeperRig;
-use gpa_verif::props::c09;
+use gpa_verif::props::{c09, c12};
 use gpa_verif::report::{Known, Params, Stats};
 use gpa_verif::runner::Drive;
 use std::time::Instant;
@@ -33,6 +33,12 @@ fn main() {
             let n = params.share(if th { 12_000 } else { 320 });
             Drive { params: &params, stats: &mut stats, known: &known }.run("c09.convergence", 9, c09::strategy(), n, |c, s| c09::eval(&rig, c, s));
             (c09::RULE.into(), assumptions)
+        }
+        "C12" => {
+            let env = std::cell::RefCell::new(c12::setup(&rig));
+            let n = params.share(if th { 6_000 } else { 200 });
+            Drive { params: &params, stats: &mut stats, known: &known }.run("c12.taint", 12, c12::strategy(), n, |c, s| c12::eval(&rig, &mut env.borrow_mut(), &known, c, s));
+            (c12::RULE.into(), assumptions)
         }
         other => {
             eprintln!("keeper: unknown property '{}'", other);
